@@ -347,7 +347,9 @@ func reserved(c *engine.Ctx) {
 		for pos := 0; pos < 3; pos++ {
 			for _, kind := range []sbom.Node_NodeType{sbom.Node_PACKAGE, sbom.Node_FILE} {
 				w, pos, kind := w, pos, kind
-				c.Case(func() any { return map[string]any{"id": w, "position": []string{"root+source", "target", "middle"}[pos], "kind": kind.String()} }, func(t *engine.T) *engine.Violation {
+				c.Case(func() any {
+					return map[string]any{"id": w, "position": []string{"root+source", "target", "middle"}[pos], "kind": kind.String()}
+				}, func(t *engine.T) *engine.Violation {
 					nl := &sbom.NodeList{}
 					switch pos {
 					case 0:
@@ -473,7 +475,9 @@ type dev struct {
 
 func menu() []dev {
 	var m []dev
-	add := func(slot, name string, f func(p, f *sbom.Node)) { m = append(m, dev{Name: slot + "=" + name, Slot: slot, Do: f}) }
+	add := func(slot, name string, f func(p, f *sbom.Node)) {
+		m = append(m, dev{Name: slot + "=" + name, Slot: slot, Do: f})
+	}
 	txt := []string{"x", "Ünï cödé ✓ 日本", "a b", "q\"uo\\te <&> {}[]:,", "  lead", "trail  ", "multi\nline", "tab\tx", "SPDXRef-x", "NOASSERTION-ish", "x (y)", "a:b", "%41+%20", strings.Repeat("long", 300)}
 	str := func(slot string, vals []string, set func(n *sbom.Node, v string), file bool) {
 		for _, v := range vals {
